@@ -135,8 +135,10 @@ func vTO2UntilProveDevice(kind int, nopanic bool) {
 	adv := &vAdv{numShift: shifts}
 	signerKind, signer := h.mk, h.mfgPub
 	ownerAfter := []crypto.PublicKey{h.mfgPub} // ownerAfter[k] = owner key after k entries
+	var vents []vwEntry
 	for i := 0; i < n; i++ {
 		e := vwMkEntryR(string(rune('A'+i)), signerKind, signer, true)
+		vents = append(vents, e)
 		adv.entries = append(adv.entries, e.tag)
 		signerKind, signer = e.nextKind, e.nextPub
 		ownerAfter = append(ownerAfter, e.nextPub)
@@ -231,17 +233,20 @@ func vTO2UntilProveDevice(kind int, nopanic bool) {
 	verif.Assert(verif.BytesEq(kh.Value, vwHashOf(kh.Algorithm, mkEnc)), "accepted => manufacturer key matches the key hash in the device credential")
 	ov := Voucher{Header: h.v.Header, Hmac: h.v.Hmac, Entries: adv.entries[:m]}
 	verif.Assert(ov.VerifyEntries() == nil, "accepted => the entry chain verifies link by link")
+	vwSpecEntries("accepted", h, h.v.Hmac, vents[:m])
 	verif.Assert(verif.BytesEq(verif.KeyID(advertised), verif.KeyID(lastPub)), "accepted => the advertised owner key is the key of the chain's last entry")
 	_ = lastKind
 	verif.Assert(adv.gotHello, "HelloDevice was sent")
 	proof := adv.proof(adv.hello)
 	ok, verr := proof.Verify(lastPub, nil, nil)
 	verif.Assert(verr == nil && ok, "accepted => ProveOVHdr is signed with the private key of the chain's last entry")
+	verif.Assert(vwSpecSigned(kind, lastPub, sigAlgs[algIdx], vwMust(cbor.Marshal(proof.Payload.Val)), proofSig), "accepted => ProveOVHdr's signature is the last entry key's signature over its protected header and payload (reference predicate)")
 	verif.Assert(claimedNonce == adv.hello.NonceTO2ProveOV, "accepted => ProveOVHdr echoes the device's fresh HelloDevice nonce")
 	helloEnc := vwMust(cbor.Marshal(adv.hello))
 	verif.Assert(hdhAlgIdx != 2 && verif.BytesEq(hdh.Value, vwHashOf(hdh.Algorithm, helloEnc)), "accepted => ProveOVHdr carries the hash of the HelloDevice message")
 	if hasTo1d {
 		ok, verr := to1d.Verify(lastPub, nil, nil)
 		verif.Assert(verr == nil && ok, "accepted => the rendezvous blob is signed by that same key")
+		verif.Assert(vwSpecSigned(kind, lastPub, sigAlgs[kind], vwMust(cbor.Marshal(to1d.Payload.Val)), to1d.Signature), "accepted => the rendezvous blob's signature is that same key's signature over its protected header and payload (reference predicate)")
 	}
 }
